@@ -14,16 +14,21 @@ from .worlds import World, build_sim, make_config, make_env, mk_station, mk_vehi
 class FifoWorld(World):
     name = "W-fifo"
 
-    def __init__(self, plugs=("DCFC",), small: bool = False, pairs: bool = True, name: str = "", full_v1: bool = False, t0: bool = False):
+    def __init__(self, plugs=("DCFC",), small: bool = False, pairs: bool = True, name: str = "", full_v1: bool = False, t0: bool = False, midnight: bool = False, fleets: bool = False):
         super().__init__()
         self.pairs = pairs
-        self.name = name or ("W-fifo" + ("/2plugs" if len(plugs) > 1 else "") + ("/small" if small else "") + ("/full-arrival" if full_v1 else "") + ("/t0" if t0 else ""))
+        self.name = name or ("W-fifo" + ("/2plugs" if len(plugs) > 1 else "") + ("/small" if small else "") + ("/full-arrival" if full_v1 else "") + ("/t0" if t0 else "")
+                             + ("/midnight" if midnight else "") + ("/fleets" if fleets else ""))
         S = sites()
         # t0: no early unplugging by the driver (soc limit 1.0), so that a charging vehicle leaves through the default
         # transition of the update phase when its battery is full (power-curve branch stops just below capacity)
-        cfg = make_config(step=60, cancel=240, idle_timeout=100000, start=0 if t0 else 8 * 3600, end=86400 + 8 * 3600,
+        # midnight: the run starts three minutes before the end of a day, so the queue spans midnight
+        # fleets: two of the vehicles belong to fleet f1, the station is public (no membership)
+        t_start = 0 if t0 else (2 * 86400 - 180 if midnight else 8 * 3600)
+        cfg = make_config(step=60, cancel=240, idle_timeout=100000, start=t_start, end=3 * 86400,
                           dispatcher={"ideal_fastcharge_soc_limit": 1.0} if t0 else None)
-        self.env = make_env(cfg)
+        self.env = make_env(cfg, fleets=("f1",) if fleets else ())
+        fl = (lambda vid: ("f1",) if fleets and vid in ("v5", "v3") else ())
         env = self.env
         rn = HaversineRoadNetwork(sim_h3_resolution=15)
         self.rn = rn
@@ -31,8 +36,8 @@ class FifoWorld(World):
         v9 = mk_vehicle(env, rn, "v9", S["A"], "small" if small else "quiet", soc=0.3, energy=0.0 if small else None)
         if t0:
             v9 = mk_vehicle(env, rn, "v9", S["A"], "quiet", energy=49.8955)  # full (>= 49.9 kWh) after two steps on the power curve
-        v5 = mk_vehicle(env, rn, "v5", S["N1"], "quiet", soc=0.3)
-        v3 = mk_vehicle(env, rn, "v3", S["M1"], "quiet", soc=0.3)
+        v5 = mk_vehicle(env, rn, "v5", S["N1"], "quiet", soc=0.3, fleets=fl("v5"))
+        v3 = mk_vehicle(env, rn, "v3", S["M1"], "quiet", soc=0.3, fleets=fl("v3"))
         # full_v1: a small-battery vehicle that is still "full" when it arrives (must not block the queue)
         v1 = mk_vehicle(env, rn, "v1", S["N2"], "small", energy=1.0) if full_v1 else mk_vehicle(env, rn, "v1", S["N2"], "quiet", soc=0.3)
         if t0:
@@ -49,7 +54,7 @@ class FifoWorld(World):
             assert err is None and start is not None and int(start.vehicles["v5"].vehicle_state.enqueue_time) == 0
             self.starts = {"t0:v9-charging,v5-queued": start}
         else:
-            init = build_sim(env, rn, vehicles=(v9, v5, v3, v1), stations=(s0,))
+            init = build_sim(env, rn, vehicles=(v9, v5, v3, v1), stations=(s0,), start=t_start)
             start, _ = self.step(init, (("I", "ChargeStation", "v9", "s0", "DCFC"),))
             assert start.vehicles["v9"].vehicle_state.__class__.__name__ == "ChargingStation"
             self.starts = {"v9-charging": start}
